@@ -751,6 +751,57 @@ fn c16_template(r: &mut impl RngCore, which: u32) -> (Vec<Op>, u64, &'static str
     }
 }
 
+/// Burst histories: many distinct ids at once, so that one connection has more pending deliveries than any bounded
+/// channel / batch size, and many heap records fall due at the same operation.
+fn burst_id(k: usize) -> [u8; 32] {
+    let mut id = [0x42u8; 32];
+    id[0] = (k >> 8) as u8;
+    id[1] = k as u8;
+    id[31] = 0xB0;
+    id
+}
+fn burst_history(which: usize, n: usize) -> Hist {
+    let mut ops = Vec::new();
+    let name;
+    match which % 3 {
+        0 => {
+            // n asks of one connection, then n publications, then the connection reads: every ask answered exactly once
+            name = "burst-asks-then-publications";
+            for k in 0..n { ops.push(Op::Send { c: 0, f: askframe(&burst_id(k), 5), t: 0 }); }
+            ops.push(Op::Messages);
+            for k in 0..n { ops.push(Op::RelaySend { f: pubframe(&burst_id(k), 5, 0, &[k as u8, 0xC0]), t: NS }); }
+            ops.push(Op::Drain { c: 0 });
+            ops.push(Op::Drain { c: 1 });
+            ops.push(Op::Messages);
+        }
+        1 => {
+            // n publications and n asks (other ids) all due at 1s; one operation at 3s: nothing may remain; asks for
+            // the expired ids get nothing
+            name = "burst-expiry";
+            for k in 0..n { ops.push(Op::RelaySend { f: pubframe(&burst_id(k), 1, 0, &[k as u8, 0xC1]), t: 0 }); }
+            for k in 0..n { ops.push(Op::Send { c: 1, f: askframe(&burst_id(1000 + k), 1), t: 0 }); }
+            ops.push(Op::Messages);
+            ops.push(Op::Send { c: 0, f: askframe(&burst_id(5000), 0), t: 3 * NS });
+            ops.push(Op::Messages);
+            ops.push(Op::Send { c: 0, f: askframe(&burst_id(n - 1), 1), t: 3 * NS });
+            ops.push(Op::Send { c: 0, f: askframe(&burst_id(0), 1), t: 3 * NS });
+            ops.push(Op::Drain { c: 0 });
+            ops.push(Op::RelaySend { f: pubframe(&burst_id(1000 + n - 1), 1, 0, &[0xC2]), t: 3 * NS });
+            ops.push(Op::Drain { c: 1 });
+            ops.push(Op::Messages);
+        }
+        _ => {
+            // n publications, then one connection asks for all of them (immediate replies), reads, asks again
+            name = "burst-publications-then-asks";
+            for k in 0..n { ops.push(Op::RelaySend { f: pubframe(&burst_id(k), 9, 0, &[k as u8, 0xC3]), t: 0 }); }
+            for k in 0..n { ops.push(Op::Send { c: 0, f: askframe(&burst_id(k), 1), t: NS }); }
+            ops.push(Op::Drain { c: 0 });
+            ops.push(Op::Messages);
+        }
+    }
+    Hist { gen: name.to_string(), nconn: 2, ops }
+}
+
 // ------------------------------------------------------------------------------------------ concurrent clients
 /// The `schedules` quantifier (partial): clients and publishers as concurrent tasks on a MULTI-THREADED runtime,
 /// released by a barrier; the clock is frozen and TTLs are long, so the expected per-connection delivery
@@ -992,6 +1043,16 @@ pub fn run_profile(kv: &Args, c16: bool) -> i32 {
                 messages_after_each: false, malformed_pct: 3 };
             for _ in 0..n / 2 {
                 hists.push(random_history(&mut r, &mut rm, &p2, "random-dense", vec![], 0));
+            }
+        }
+    }
+    if kv.get("replay").is_none() {
+        for (which, n) in [(0usize, 130usize), (1, 70), (1, 150), (2, 130)] {
+            hists.push(burst_history(which, n));
+        }
+        if thorough {
+            for (which, n) in [(0usize, 300usize), (1, 300), (2, 300), (0, 101), (1, 65)] {
+                hists.push(burst_history(which, n));
             }
         }
     }
